@@ -1,5 +1,6 @@
 import Driver.ELDriver
 import Driver.SimDriver
+import Driver.MissionDriver
 open Lean
 
 def handle (line : String) : String :=
@@ -13,6 +14,7 @@ def handle (line : String) : String :=
       match kind with
       | "el" => runEL j
       | "sim" => SimDriver.run j
+      | "mission" => MissionDriver.run j
       | _ => .error s!"unknown kind {kind}"
     match r with
     | .ok v => v.compress
